@@ -161,7 +161,7 @@ def execute_large(case):
     with harness.Product(files, case["fs"]) as prod:
         tree = prod.open(**({"records_per_chunk": rpc} if rpc else {}))
         var = tree["imagery/HH/data"]
-        sels = [("full", slice(None)), ("line 0", 0), ("middle line", L // 2), ("last line", L - 1), ("window of 5", slice(L // 3, L // 3 + 5)), ("every 16th", slice(None, None, 16)), ("every 2nd", slice(None, None, 2)), ("first half", slice(0, L // 2)), ("last 3", slice(L - 3, None)), ("full again", slice(None))]
+        sels = [("full", slice(None)), ("line 0", 0), ("middle line", L // 2), ("last line", L - 1), ("window of 5", slice(L // 3, L // 3 + 5)), ("every 16th", slice(None, None, 16)), ("every 2nd", slice(None, None, 2)), ("first half", slice(0, L // 2)), ("last 3", slice(L - 3, None)), ("every 3rd", slice(1, None, 3)), ("every 5th backwards", slice(None, None, -5)), ("lines beyond 1024", slice(min(1030, L - 1), min(1040, L))), ("full again", slice(None))]
         for label, sel in sels:
             got = np.ascontiguousarray(np.asarray(var.isel(rows=sel).values)).view(view)
             exp = want[sel]
@@ -186,7 +186,14 @@ def large_plan(tier):
     # one chunk of > 8 MiB (very long lines), and in the thorough tier > 32 MiB
     cases.append({"type": "IU2", "L": 120, "P": 50000, "rpc": None, "fs": "mcfs"})
     cases.append({"type": "C*8", "L": 40, "P": 40000, "rpc": None, "fs": "mcfs"})
+    # many lines: several line groups at the default rpc, hundreds of small groups
+    for tc, L, P in (("IU2", 2500, 8), ("C*8", 2100, 3)):
+        for rpc in (None, 1, 100, 256, 1000, 1024, 2048):
+            cases.append({"type": tc, "L": L, "P": P, "rpc": rpc, "fs": "mcfs"})
     if tier == "thorough":
+        cases.append({"type": "IU2", "L": 10000, "P": 4, "rpc": None, "fs": "mcfs"})
+        cases.append({"type": "IU2", "L": 10000, "P": 4, "rpc": 512, "fs": "local"})
+        cases.append({"type": "C*8", "L": 70000, "P": 1, "rpc": None, "fs": "mcfs"})
         cases.append({"type": "IU2", "L": 400, "P": 50000, "rpc": None, "fs": "mcfs"})
         cases.append({"type": "IU2", "L": 400, "P": 50000, "rpc": 100, "fs": "local"})
     return cases
@@ -199,6 +206,7 @@ def run(res, tier, seed):
         " patterns / every uint16 pattern rotated over all pixel positions; a case is one product of up to 8 images;"
         " every case loads pixels, so all are non-trivial; distinct = distinct case tuples; plus realistically sized images (640x1000 IU2,"
         " 320x600 C*8: > 1 MiB per chunk at the default rpc) x rpc {default, 64, 1000, 1, 7}, and 120x50000 IU2 / 40x40000 C*8 (one chunk of 12 MiB; 40 MiB in the thorough tier) with"
+        " and 2500x8 IU2 / 2100x3 C*8 x rpc {default,1,100,256,1000,1024,2048} (10000 and 70000 lines in the thorough tier), each with"
         " full / single-line / window / strided reads"
     )
     res.assumptions = [
